@@ -141,3 +141,39 @@ def recovery_and_backstop(m: str, e: str, site: int) -> bool:
         stubs.CLOCK.now = 1_700_000_000.0
     bcs = [l for l in log if l[0] == "broadcast"]
     return looked[-1:] == [sm_arn] and len(bcs) == 1 and bcs[0][2]["detail"]["stateMachineArn"] == sm_arn and bcs[0][2]["detail"]["status"] == "FAILED"
+
+
+import vh_c10 as api
+
+
+@condition(timeout={"quick": 120, "thorough": 300}, bounds={"quick": {"N": 1}, "thorough": {"N": 2}},
+           functions=["rest_api_asyncio / rest_api: aws_api_StartExecution (execution ARN minted from the state machine ARN)"])
+def rest_mint(f: int, e: str, ri: int, has_name: bool) -> bool:
+    """
+    requires: 0 <= f < 2 and len(e) <= @N@ and all(c in ALPHA for c in e) and 0 <= ri < 3
+    ensures: _
+    """
+    e = api.concrete(norm(e))
+    fe = api.FE[f]
+    fe.reset(True)
+    region = pick(["local", "eu-west-1", "us-gov-west-1"], ri)          # the front end itself is configured for "local"
+    sm = "arn:aws:states:%s:0123456789:stateMachine:m" % region
+    fe.engine.asl_store[sm] = {"definition": {"StartAt": "A", "States": {"A": {"Type": "Succeed"}}}, "name": "m", "roleArn": api.ROLE1,
+                               "stateMachineArn": sm, "type": "STANDARD", "creationDate": 1.0, "updateDate": 1.0, "status": "ACTIVE"}
+    members = {"stateMachineArn": sm}
+    if has_name:
+        members["name"] = e
+    v, code = fe.call("AWSStepFunctions.StartExecution", api.CT, stubs.FastJson.dumps(members).encode())
+    valid = (ra.valid_name, rb.valid_name)[f]
+    if has_name and not valid(e):
+        return code == 400 and not fe.disp.log
+    if code != 200:
+        return False
+    ex = v["executionArn"]
+    pubs = [l for l in fe.disp.log if l[0] == "publish"]
+    if len(pubs) != 1 or pubs[0][1]["context"]["Execution"]["Id"] != ex or pubs[0][1]["context"]["StateMachine"]["Id"] != sm:
+        return False
+    # every derivation site splits the execution ARN like this and must arrive at the machine it was started for
+    split = ex.rpartition(":")
+    a = arnmod.parse_arn(split[0]); a["resource_type"] = "stateMachine"
+    return arnmod.create_arn(a) == sm and (not has_name or split[2] == e)
